@@ -492,7 +492,20 @@ fn stress_core(scenario: &str, k: usize, it: usize) -> Value {
         effs.into_iter().map(|e| { let Effect::Op(r) = e; Some(r) }).collect();
     owned.resize_with(k.max(owned.len()), || None);
     let barrier = std::sync::Barrier::new(k);
+    let stop = std::sync::atomic::AtomicBool::new(false);
     let results: Vec<Value> = std::thread::scope(|sc| {
+        // a shell thread that keeps reading the view while the others call in (it holds the model's read lock
+        // for the length of the app's view function; the callers must wait for it, not give up on their events)
+        let viewer = {
+            let (core, stop) = (&core, &stop);
+            sc.spawn(move || {
+                let mut n = 0u64;
+                while !stop.load(std::sync::atomic::Ordering::SeqCst) {
+                    n += core.view().log.len() as u64;
+                }
+                n
+            })
+        };
         let hs: Vec<_> = (0..k)
             .map(|i| {
                 let (core, barrier) = (&core, &barrier);
@@ -511,7 +524,10 @@ fn stress_core(scenario: &str, k: usize, it: usize) -> Value {
                 })
             })
             .collect();
-        hs.into_iter().map(|h| h.join().unwrap_or(json!({"res":"panic"}))).collect()
+        let out = hs.into_iter().map(|h| h.join().unwrap_or(json!({"res":"panic"}))).collect();
+        stop.store(true, std::sync::atomic::Ordering::SeqCst);
+        let _ = viewer.join();
+        out
     });
     let view = core.view();
     let log = log_json(&view);
